@@ -235,7 +235,7 @@ CLAIMED['C07'] = {
     'text': ('Proved for all inputs: the function handed to the optimiser (NegativeLikelihood._f/_f_g/_f_g_h, translated on every run) is -L with gradient -grad L and '
              'Hessian -hess L, so argmin = argmax and first-order conditions coincide; in the model of estimate (restart file, init value, optimize, final '
              'evaluation, RawResults, write-back) the reported logLike, g, H, bhhh are those of L at the returned point and initLogLike is L at the start; every Beta '
-             'leaf named like a free parameter starts at its estimate, fixed ones are untouched; the generated tables prove which five algorithm names hand the '
+             'leaf named like a free parameter starts at its estimate, fixed ones are untouched, and the starting vector of the object (id_manager.free_betas_values) holds the estimates (write-back through BIOGEME.change_init_values, whose body is read from the source), so a second estimate() on the same object starts at the estimates; the generated tables prove which five algorithm names hand the '
              'bounds to their routine and which four drop them (with a refutation witness), and which toml parameter reaches which routine keyword; for concave L '
              'on a box a feasible first-order point is a global maximum, two such points have equal value (with an epsilon version), the projected gradient '
              'vanishes exactly at first-order points. PARTIAL: final >= init, bounds respected, stationarity and agreement depend on the external optimisers: their '
